@@ -14,9 +14,9 @@ Dir. B:  Trace_Dom: after EVERY step the snapshot of ALL live trees must equal t
 """
 import random
 
-from harness import domdriver, domgen, pools
+from harness import domdriver, domgen, fgen, pools
 from harness.abstraction import Catalog
-from harness.checks import _dcommon
+from harness.checks import _dcommon, _rcommon
 
 CHK = {'bytes': False, 'adopt': True, 'c06': False}
 
@@ -72,12 +72,21 @@ def run(run, replay=None):
     rng = random.Random(run.seed)
     quick = run.tier == 'quick'
     cat = Catalog()
+    _rcommon.note_pools(cat)
+    paths = [p for p in _rcommon.legal_paths(run, 6) if len(p) >= 2]
     traces = []
     for n in range(300 if quick else 2500):
         h = domdriver.History(cat, shared_reader=True, shared_writer=rng.random() < 0.7)
         h.new()
         h.new(**domgen.rand_container_attrs(rng, 0))
         domgen.build_tree(h, rng, via_attrs=rng.random() < 0.5)
+        if rng.random() < 0.35:
+            # a live tree that comes from a FOREIGN file (optional options omitted, other option order, ...)
+            data, _info = fgen.build_file(rng.choice(paths), rng, main_enc=rng.choice(['utf-8', 'utf-16', 'latin-1']))
+            e = h.parse(data)
+            if e['status'] == 'ok':
+                h.ser(len(h.trees))
+                h.repr(len(h.trees))
         for _ in range(rng.randint(6, 14) if quick else rng.randint(8, 24)):
             random_step(h, rng)
         traces.append(h.trace(n, CHK))
